@@ -658,6 +658,24 @@ def format_spec(E, v, spec):
         s = s[1:]
     if s in ("X", "x", "d"):
         return format_one(E, v, s, flags, int(width) if width else None)
+    if s == "b" and flags == "0" and width:
+        w = int(width)
+        if isinstance(v, bool):
+            v = int(v)
+        if isinstance(v, int):
+            return format(v, spec)
+        if isinstance(v, SInt):
+            cells = int_cells(v)
+            if cells is None:
+                raise Unsupported("format(.., %r) of possibly negative symbolic int" % spec)
+            cells = list(cells)
+            while len(cells) > w:
+                # more significant bits than the field width: the string is longer unless they are zero
+                if E.decide(_bit_true(cells[0])):
+                    raise Unsupported("format(.., %r): value wider than the field" % spec)
+                cells = cells[1:]
+            return sbin_or_str([0] * (w - len(cells)) + cells)
+        raise PyExc("TypeError", "unsupported format string passed to %s.__format__" % type(v).__name__)
     raise Unsupported("format spec %r" % spec)
 
 
@@ -1122,6 +1140,22 @@ def b_round(E, args, kw):
     v = E.force(args[0])
     if isinstance(v, (int, Fraction)) and len(args) == 1:
         return round(v)
+    nd = E.force(args[1]) if len(args) > 1 else kw.get("ndigits")
+    if isinstance(v, (SReal, SInt, Fraction, int)) and not isinstance(v, bool) and (nd is None or isinstance(nd, int)):
+        if isinstance(v, (SInt, int)) and (nd is None or nd >= 0):
+            return v
+        # nearest multiple of 10**-nd over the reals, ties to even (CPython's rule): a function of x, so that
+        # two calls on the same value agree
+        scale = Fraction(10) ** (nd or 0)
+        x = to_real(v) * z3.RealVal(str(scale)) if isinstance(v, (SReal, SInt)) else None
+        if x is None:
+            x = z3.RealVal(str(Fraction(v) * scale))
+        f = z3.ToInt(x + z3.RealVal("1/2"))
+        k = z3.If(z3.And(z3.ToReal(f) == x + z3.RealVal("1/2"), f % 2 == 1), f - 1, f)
+        E.trusted.add("round(x, n): nearest multiple of 10**-n over the reals, ties to even")
+        if nd is None:
+            return SInt(k)
+        return SReal(z3.ToReal(k) / z3.RealVal(str(scale)))
     raise Unsupported("round()")
 
 
@@ -1603,6 +1637,27 @@ def np_maximum(E, args, kw):
     return E.vmerge(c, b_float(E, [a], {}), b_float(E, [b], {}))
 
 
+def np_minimum(E, args, kw):
+    a, b = E.force(args[0]), E.force(args[1])
+    import ast as _ast
+    c = E.compare(_ast.LtE(), a, b)
+    if isinstance(c, bool):
+        return a if c else b
+    return E.vmerge(c, b_float(E, [a], {}), b_float(E, [b], {}))
+
+
+def np_clip(E, args, kw):
+    """np.clip(x, lo, hi) == minimum(maximum(x, lo), hi) for scalars (numpy's definition)"""
+    x = args[0]
+    lo_ = args[1] if len(args) > 1 else kw.get("a_min")
+    hi_ = args[2] if len(args) > 2 else kw.get("a_max")
+    if lo_ is not None:
+        x = np_maximum(E, [x, lo_], {})
+    if hi_ is not None:
+        x = np_minimum(E, [x, hi_], {})
+    return x
+
+
 def np_where(E, args, kw):
     c = E.truth(E.force(args[0]))
     a, b = E.force(args[1]), E.force(args[2])
@@ -1727,6 +1782,8 @@ def make_numpy():
         "radians": Builtin("np.radians", np_radians),
         "degrees": Builtin("np.degrees", np_degrees),
         "maximum": Builtin("np.maximum", np_maximum),
+        "minimum": Builtin("np.minimum", np_minimum),
+        "clip": Builtin("np.clip", np_clip),
         "where": Builtin("np.where", np_where),
         "array": Builtin("np.array", np_array),
         "absolute": Builtin("np.absolute", b_abs),
@@ -1773,6 +1830,46 @@ def rt_as_char(E, args, kw):
     return v
 
 
+def rt_c_narrow(E, args, kw):
+    """`var = x` for a C integer variable of `bits` bits (vc/pyx2py.py): two's-complement truncation.
+    Identity when the bounds or the bit view show that x fits; exact truncation of the bit view otherwise;
+    for a value without bit view and without bounds the range is a proof obligation and the value is kept."""
+    v = E.force(args[0])
+    bits, signed = args[1], args[2]
+    lo_, hi_ = (-(1 << (bits - 1)), (1 << (bits - 1)) - 1) if signed else (0, (1 << bits) - 1)
+    if isinstance(v, (bool, SBool)):
+        v = b_int(E, [v], {})
+    if isinstance(v, int):
+        v &= (1 << bits) - 1
+        if signed and v >> (bits - 1):
+            v -= 1 << bits
+        return v
+    if isinstance(v, (Fraction, SReal)):
+        v = b_int(E, [v], {})
+        if isinstance(v, int):
+            return rt_c_narrow(E, [v, bits, signed], {})
+    if not isinstance(v, SInt):
+        raise Unsupported("C integer narrowing of %s" % type(v).__name__)
+    if v.lo is not None and v.hi is not None and lo_ <= v.lo and v.hi <= hi_:
+        return v
+    cells = int_cells(v)
+    if cells is not None:
+        nv = bits - 1 if signed else bits
+        if len(cells) <= nv:
+            return v
+        low = cells[len(cells) - bits:] if len(cells) >= bits else cells
+        if not signed:
+            return int_from_cells(low)
+        u = int_from_cells(low[1:])
+        top = int_from_cells(low[:1])
+        return binop(E, "-", u, binop(E, "*", top, 1 << (bits - 1)))
+    lab = "C integer range: value fits %s%d" % ("int" if signed else "uint", bits)
+    if E.current_label:
+        lab = E.current_label + "/" + lab
+    E.check(z3.And(v.term >= lo_, v.term <= hi_), lab)
+    return v
+
+
 def rt_array(E, args, kw):
     return E.new_heap(SList(E.iterate(E.force(args[1]))))
 
@@ -1782,7 +1879,7 @@ def make_pyx_runtime():
     return StubModule("vc_pyx_runtime", {
         "array": arr, "bytes": Builtin("bytes", rt_bytes), "bytearray": Builtin("bytearray", rt_bytes),
         "PyBytes_GET_SIZE": Builtin("len", b_len), "PyByteArray_GET_SIZE": Builtin("len", b_len),
-        "_as_char": Builtin("_as_char", rt_as_char)})
+        "_as_char": Builtin("_as_char", rt_as_char), "_c_narrow": Builtin("_c_narrow", rt_c_narrow)})
 
 
 def b_wrap(E, args, kw):
